@@ -229,8 +229,16 @@ class AstToSqlVisitor(visitor.NodeVisitor):
         if self._sql_precedence(node.right) <= 4:
             right = f"({right})"
 
+        #  'null eq/ne x' means the same as 'x eq/ne null':
+        if (
+            isinstance(node.left, ast.Null)
+            and not isinstance(node.right, ast.Null)
+            and isinstance(node.comparator, (ast.Eq, ast.NotEq))
+        ):
+            left, right = right, left
+
         #  'eq/ne null' should become 'IS (NOT) NULL' instead of '(!)= NULL'
-        if isinstance(node.right, ast.Null):
+        if isinstance(node.right, ast.Null) or isinstance(node.left, ast.Null):
             if isinstance(node.comparator, ast.Eq):
                 comparator = "IS"
             elif isinstance(node.comparator, ast.NotEq):
